@@ -2,6 +2,7 @@ package rules
 
 import (
 	"go/constant"
+	"go/token"
 	"os"
 	"strings"
 
@@ -13,6 +14,7 @@ import (
 func init() { register("C09", c09) }
 
 func c09(c *Ctx) {
+	defer c.truncationIsAnError()
 	P, R := c.P, c.R
 	R.Explain("R09.1", "T-GUARDED/T-PAIR: in WriteControlledStore.Get/Set/Delete the call into the wrapped store is dominated by acquireSyncRef(id) for the same id and by RLock (Get) / Lock (Set, Delete) on that entry's lock, with the unlock and releaseSyncRef deferred; only the two *Unchecked methods bypass it.")
 	R.Explain("R09.2", "T-SOURCE: every id passed to SetUnchecked is fresh (imap.NewInternalMessageID, directly, through a request struct field, or returned by Connector.CreateMessage): the unlocked write can never hit an id another goroutine is reading.")
@@ -455,4 +457,85 @@ func closureRunUnderSyncRef(c *Ctx, cl *ssa.Function, idInClosure ssa.Value, nam
 		}
 	}
 	return false, ""
+}
+
+// truncationIsAnError (R09.7): the decompressor's error may be ignored only if it is io.EOF.
+func (c *Ctx) truncationIsAnError() {
+	P, R := c.P, c.R
+	R.Explain("R09.7", "a truncated cache file is an error, never a shorter value: in onDiskStore.Get the error of the decompressor's WriteTo (the only place where a missing tail of the encrypted stream shows up, as io.ErrUnexpectedEOF) reaches a nil-error return only through the true edge of errors.Is(err, io.EOF); any other tolerated classification returns a prefix of the message as if it were the message.")
+	f := c.fn("R09.7", "store.(*onDiskStore).Get")
+	if f == nil {
+		return
+	}
+	n := 0
+	for _, cs := range engine.Calls(f) {
+		isWT := false
+		if cs.Common().IsInvoke() && cs.Common().Method.Name() == "WriteTo" {
+			isWT = true
+		}
+		if sc := cs.Common().StaticCallee(); sc != nil && engine.ShortName(sc) == "WriteTo" && strings.Contains(engine.PkgPathOf(sc), "lz4") {
+			isWT = true
+		}
+		call, ok := cs.Instr.(*ssa.Call)
+		if !isWT || !ok || cs.Instr.Parent() != f {
+			continue
+		}
+		n++
+		key := c.name(f) + "|WriteTo-error-only-EOF-tolerated"
+		var errVal ssa.Value
+		for _, r := range *call.Referrers() {
+			if ex, ok := r.(*ssa.Extract); ok && ex.Index == 1 {
+				errVal = ex
+			}
+		}
+		if errVal == nil {
+			R.Fail("R09.7", key, P.Pos(call.Pos()), "the error of the decompressor is not looked at")
+			continue
+		}
+		// the non-nil edge of the error test
+		var start *ssa.BasicBlock
+		allowed := map[engine.Edge]bool{}
+		for _, b := range f.Blocks {
+			iff := engine.IfOf(b)
+			if iff == nil {
+				continue
+			}
+			if bin, ok := iff.Cond.(*ssa.BinOp); ok && (bin.X == errVal && engine.IsNilConst(bin.Y)) {
+				ix := 0
+				if bin.Op == token.EQL {
+					ix = 1
+				}
+				start = b.Succs[ix]
+			}
+			cond, neg := engine.StripNot(iff.Cond)
+			if isCall, ok := cond.(*ssa.Call); ok {
+				if sc := isCall.Call.StaticCallee(); sc != nil && engine.ShortName(sc) == "Is" && engine.PkgPathOf(sc) == "errors" && len(isCall.Call.Args) == 2 && isCall.Call.Args[0] == errVal {
+					if ld, ok := isCall.Call.Args[1].(*ssa.UnOp); ok {
+						if g, ok := ld.X.(*ssa.Global); ok && g.Name() == "EOF" && g.Pkg.Pkg.Path() == "io" {
+							tix := 0
+							if neg {
+								tix = 1
+							}
+							allowed[engine.Edge{From: b, Succ: tix}] = true
+						}
+					}
+				}
+			}
+		}
+		if start == nil {
+			R.Fail("R09.7", key, P.Pos(call.Pos()), "the error of the decompressor is not compared with nil")
+			continue
+		}
+		bad := ""
+		for _, ret := range engine.Returns(f) {
+			if lr := engine.LastResult(ret); lr == nil || !engine.IsNilConst(lr) {
+				continue
+			}
+			if engine.ReachesAvoidingFrom(start, 0, ret, nil, allowed) {
+				bad = P.Pos(ret.Pos())
+			}
+		}
+		R.Check(bad == "", "R09.7", key, P.Pos(call.Pos()), "only io.EOF is tolerated", "with a non-nil decompressor error a nil-error return ("+bad+") is reachable without the error being io.EOF: a cache file truncated at a block boundary yields a prefix of the message instead of an error")
+	}
+	R.Min("R09.7", "decompressor WriteTo calls in Get", n, 1)
 }
